@@ -16,11 +16,12 @@ depend on the signature.  Verification of the signature itself is discharged by 
 import SpsdkVerif.Proofs.Ahab
 import SpsdkVerif.Proofs.AhabVerify
 import SpsdkVerif.Proofs.AhabRom
+import SpsdkVerif.Proofs.AhabParse
 
 namespace SpsdkVerif.C06
 open SpsdkVerif SpsdkVerif.Misc SpsdkVerif.Ahab SpsdkVerif.AhabVerify
 open SpsdkVerif.Generated
-open SpsdkVerif.Crypto (CryptoOps CryptoLaws)
+open SpsdkVerif.Crypto (CryptoOps CryptoLaws Break)
 
 /-! ## 0. the hand-transcribed format (Spec) agrees with the constants extracted from the source -/
 
@@ -348,6 +349,97 @@ theorem update_establishes (c : CryptoOps) (hc : CryptoLaws c) (img : Image) (us
   have hent := updateContainers_entries c img.chip img.ver img.containers 0 _ us h u hu p hp
   obtain ⟨a, _, _, hhl, hivl, hsize, _⟩ := readyEntry_spec c hc img.chip img.ver _ p.entry p.ready hent.1
   exact ⟨hent.2, hsize, hhl, hivl⟩
+
+/-! ## 8. whole-file round trip (parser model of Model/AhabParse.lean) -/
+
+/-- where every part of an exported signature block lies: header at 0, SRK table (array), signature(s), certificate and blob
+    at the offsets of `update_fields`, each one intact -/
+theorem sigblock_parts (v : Ver) (sb : SigBlock) (s : Bytes) (hb : BlobLenOK sb)
+    (h : encodeSigBlock v sb (sbLayout v sb) = .ok s) :
+    ∃ hdr sg sg2 bl, sbHeader v (sbLayout v sb) sb.keyId = .ok hdr ∧ encodeSignature sb.signature = .ok sg ∧
+      encodeSignature sb.signature2 = .ok sg2 ∧ encodeBlobOpt sb = .ok bl ∧
+      s.length = (sbLayout v sb).length ∧
+      Spec.AhabRom.slice s 0 16 = hdr ∧
+      (sb.srk ≠ [] → Spec.AhabRom.slice s (sbLayout v sb).srkOff sb.srk.length = sb.srk) ∧
+      (sg ≠ [] → Spec.AhabRom.slice s (sbLayout v sb).sigOff sg.length = sg) ∧
+      (v = .v2 → sg ≠ [] → sg2 ≠ [] → Spec.AhabRom.slice s ((sbLayout v sb).sigOff + sg.length) sg2.length = sg2) ∧
+      (sb.cert ≠ [] → Spec.AhabRom.slice s (sbLayout v sb).certOff sb.cert.length = sb.cert) ∧
+      (∀ b, sb.blob = some b → Spec.AhabRom.slice s (sbLayout v sb).blobOff bl.length = bl) :=
+  sigblock_content v sb s hb h
+
+/-- signature block: parse(export) gives back the offsets, the decoded SRK table (v1) / raw SRK table array (v2), the signature
+    data, the raw certificate and the blob -/
+theorem sigblock_roundtrip_full (v : Ver) (sb : SigBlock) (s rest : Bytes) (hwf : SbParseWF v sb)
+    (h : encodeSigBlock v sb (sbLayout v sb) = .ok s) : parseSigBlock v (s ++ rest) = some (expectedSb v sb) :=
+  sigblock_roundtrip v sb s rest hwf h
+
+/-- whole container: header, image array and signature block parse back (the image bytes are whatever the surrounding file
+    holds at the entries' offsets - `image_roundtrip` says what that is) -/
+theorem container_roundtrip_full (v : Ver) (c : Container) (iaes : List Iae) (cb rest : Bytes) (hwf : SbParseWF v c.sb)
+    (hi : ∀ e ∈ iaes, e.hash.length = 64 ∧ e.iv.length = 32) (h : exportContainerWith v c iaes = .ok cb) :
+    parseContainer v (cb ++ rest) =
+      some ⟨expectedHeader v c iaes.length, iaes, iaes.map (imageBytes (cb ++ rest)), expectedSb v c.sb⟩ :=
+  container_parse_roundtrip v c iaes cb rest hwf hi h
+
+/-- `image_roundtrip`: `AHABImage.parse(AHABImage.export())`, in the models, returns slot by slot exactly what was exported -
+    header fields, every image-array entry, the bytes of every image (zero-extended to its size), the signature block with its
+    offsets, SRK table, signature, certificate and blob - for every number of containers and images, every crypto instance
+    with `CryptoLaws`.  `hphantom`: the unused container slots do not happen to hold bytes that pass the container head check
+    (tag 0x87, version, length); they are zero filled unless an explicit image offset or an over-long last container puts data
+    there.  `SbParseWF`: blob header describes its bytes, no second (PQC) signature, certificate / v2 SRK array delimited by
+    their own length field. -/
+theorem image_roundtrip (c : CryptoOps) (hc : CryptoLaws c) (img : Image) (bin : Bytes) (maxC : Nat)
+    (hexp : img.export c = .ok bin) (hA : 0 < img.chip.imageAlignment)
+    (us : List UContainer) (hus : img.update c = .ok us) (hne : us ≠ [])
+    (hwf : ∀ u ∈ us, SbParseWF img.ver u.cont.sb) (hmax : us.length ≤ maxC)
+    (hphantom : ∀ m, us.length ≤ m → m < maxC → decodeHeader img.ver (bin.drop (m * img.ver.containerSize)) = none) :
+    parseFile img.ver maxC bin = some (us.map (expectedP img.ver)) :=
+  image_roundtrip' c hc img bin maxC hexp hA us hus hne hwf hmax hphantom
+
+/-! ## 9. tampering is detected unless a primitive is broken (reductions, DESIGN §4) -/
+
+/-- `verify_sound` for hash-covered bytes: if a file differs from another one inside the image of an entry while the entry's own
+    128 bytes are the same, and the independent entry check accepts both, then the two image contents are a COLLISION of the
+    declared hash.  (With `rom_accepts`: the exported file is accepted, so a corrupted image byte that is still accepted breaks
+    SHA-2.) -/
+theorem tamper_image_detected (c : CryptoOps) (hc : CryptoLaws c) (p : Spec.AhabRom.Params) (bin bin' : Bytes) (base pos : Nat)
+    (dek dek' : Option Bytes) (r r' : Spec.AhabRom.ImageRep)
+    (hent : Spec.AhabRom.slice bin pos Spec.AhabRom.iaeSize = Spec.AhabRom.slice bin' pos Spec.AhabRom.iaeSize)
+    (hpl : pos + Spec.AhabRom.iaeSize ≤ bin.length)
+    (h : Spec.AhabRom.checkEntry c p bin base pos dek = .ok r) (h' : Spec.AhabRom.checkEntry c p bin' base pos dek' = .ok r')
+    (hdiff : Spec.AhabRom.slice bin r.offset r.size ≠ Spec.AhabRom.slice bin' r.offset r.size) : Break c :=
+  tamper_image_reduction c hc p bin bin' base pos dek dek' r r' hent hpl h h'  hdiff
+
+/-- `verify_sound` for signed bytes, for the check that authenticates the FILE (the independent check; SPSDK's own verify()
+    authenticates a re-serialisation, see the excluded classes below): a file that differs inside the signed range
+    `bin[base : base + signedLen]` but carries the honest signature and still satisfies the signature obligation is a
+    signature FORGERY -/
+theorem tamper_signed_detected (c : CryptoOps) (alg : Crypto.SigAlg) (sk : Crypto.PrivKey) (rnd : Crypto.Rand) (bin bin' : Bytes)
+    (base : Nat) (s : Spec.AhabRom.SigRep)
+    (hsig : Spec.AhabRom.slice bin' s.sigOff s.sigLen = c.sign alg sk (Spec.AhabRom.slice bin base s.signedLen) rnd)
+    (hdiff : Spec.AhabRom.slice bin base s.signedLen ≠ Spec.AhabRom.slice bin' base s.signedLen)
+    (hacc : Spec.AhabRom.sigObligation c alg (c.pubOf sk) bin' base s = true) : Break c :=
+  tamper_signed_reduction c alg sk rnd bin bin' base s hsig hdiff hacc
+
+/-- excluded class 1 (open finding C06-verify-reserializes), stated: the parser does not look at the reserved word of the
+    container header (nor does any later stage), so two files that differ only there parse to the same object - a verifier that
+    authenticates a re-export of that object cannot tell them apart.  The full `verify_sound` is therefore FALSE for SPSDK's
+    verify() on exactly the bytes the parser drops. -/
+theorem parser_ignores_reserved (v : Ver) (length flags sw fuse n sbo r1 r2 : Nat) (rest : Bytes) (h1 : r1 < 65536) (h2 : r2 < 65536)
+    (hf : fits (v.hdrLayout).intWidths [v.containerVersion, length, AhabConsts.containerTag, flags, sw, fuse, n, sbo, 0] = true) :
+    decodeHeader v (packInts (v.hdrLayout).intWidths [v.containerVersion, length, AhabConsts.containerTag, flags, sw, fuse, n, sbo, r1] ++ rest) =
+    decodeHeader v (packInts (v.hdrLayout).intWidths [v.containerVersion, length, AhabConsts.containerTag, flags, sw, fuse, n, sbo, r2] ++ rest) := by
+  have w := (hdrLayout_widths v).1
+  rw [w] at hf ⊢
+  have f1 : fits [1, 2, 1, 4, 2, 1, 1, 2, 2] [v.containerVersion, length, AhabConsts.containerTag, flags, sw, fuse, n, sbo, r1] = true := by
+    simp only [fits, Bool.and_eq_true, decide_eq_true_eq] at hf ⊢
+    refine ⟨hf.1, hf.2.1, hf.2.2.1, hf.2.2.2.1, hf.2.2.2.2.1, hf.2.2.2.2.2.1, hf.2.2.2.2.2.2.1, hf.2.2.2.2.2.2.2.1, by omega, trivial⟩
+  have f2 : fits [1, 2, 1, 4, 2, 1, 1, 2, 2] [v.containerVersion, length, AhabConsts.containerTag, flags, sw, fuse, n, sbo, r2] = true := by
+    simp only [fits, Bool.and_eq_true, decide_eq_true_eq] at hf ⊢
+    refine ⟨hf.1, hf.2.1, hf.2.2.1, hf.2.2.2.1, hf.2.2.2.2.1, hf.2.2.2.2.2.1, hf.2.2.2.2.2.2.1, hf.2.2.2.2.2.2.2.1, by omega, trivial⟩
+  unfold decodeHeader
+  rw [w, unpack_pack _ _ rest f1, unpack_pack _ _ rest f2]
+  simp only [List.length_append, packInts_length _ _ f1, packInts_length _ _ f2]
 
 /-! ## non-vacuity and sanity checks (decidable instances of the hypotheses) -/
 
